@@ -28,6 +28,10 @@ FOREIGN = [
     b"commits", b"diffstat", b"# comment", b"* bullet", b"> quote", b"1 file changed",
     # diffstat look-alikes that do not start with a blank (tool output, `git log --graph --stat`)
     b"warning: src/a.rs | 12 problems found", b"| src/a.rs | 2 +-", b"x | 1 +",
+    # several carriage returns (progress output): only a CR that ends the line is line-ending noise
+    b"50%\r100%\r", b"a\rb\r\x1b[K", b"x\r\r", b"\x1b[32mok\r\x1b[m done\r\x1b[m",
+    # far longer than any panel, far shorter than --max-line-length
+    b"lorem ipsum " * 40,
 ]
 
 CALLERS = [None, ["git", "log", "-p"], ["git", "show"], ["git", "diff"]]
@@ -59,6 +63,13 @@ def expected_bytes(line, maxlen):
         s2 = s
     b = s2.encode("utf-8")
     outs.append(b + b"\n")
+    # `x\r\r\n`: the line reader takes `\r\n` as the line ending and the CR that is then last is dropped as well;
+    # both are CRs at the end of the line (CRLF normalisation), the statement does not say how many may go
+    if "\r" in s2:
+        j = s2.rfind("\r")
+        import term
+        if term.strip(s2[j + 1:]) == "":
+            outs.append((s2[:j] + s2[j + 1:]).encode("utf-8") + b"\n")
     return outs, b, valid
 
 
